@@ -19,7 +19,10 @@ def args (cls method callee : String) (want : List (String × String)) (idx : Na
 def onlyParams (cls method callee : String) (ps : List String) (idx : Nat := 0) : Bool :=
   match site cls method callee idx with
   | some s =>
-    let names := s.bind.map (·.1)
+    -- parameters with a literal default that the site leaves alone or binds to exactly that literal do not count
+    -- (writing a default out is the same call), on either side
+    let names := (s.bind.map (·.1)).filter (fun p => !s.dflt.contains p)
+    let ps := ps.filter (fun p => !s.dflt.contains p)
     names.length == ps.length && names.all (ps.contains ·) && ps.all (names.contains ·)
   | none => false
 
@@ -50,13 +53,21 @@ def sameSet (a b : List String) : Bool := a.length == b.length && a.all (b.conta
 def callsOf (cls method : String) : List (String × List String) :=
   (sites.filter (fun s => s.cls == cls && s.method == method)).map (fun s => (s.callee, s.bind.map (·.1)))
 
+/-- per call of the body: the parameters that are at the callee's literal default at that site (unbound, or bound to
+    exactly that literal) -/
+def dfltOf (cls method : String) : List (List String) :=
+  (sites.filter (fun s => s.cls == cls && s.method == method)).map (·.dflt)
+
 /-- the method makes exactly the listed calls in the listed order, and at each the SET of callee parameters that
     receive an argument is exactly the listed one (spelling — positional or keyword, and the order of keywords — is
     immaterial; every parameter not listed is left at the callee's default).  A new argument at a site, a dropped
     one, a new or dropped call all make this false. -/
 def callsExactly (cls method : String) (want : List (String × List String)) : Bool :=
   let have_ := callsOf cls method
-  have_.length == want.length && (have_.zip want).all (fun p => p.1.1 == p.2.1 && sameSet p.1.2 p.2.2)
+  let dfl := dfltOf cls method
+  have_.length == want.length && ((have_.zip want).zip dfl).all (fun q =>
+    let p := q.1
+    p.1.1 == p.2.1 && sameSet (p.1.2.filter (fun x => !q.2.contains x)) (p.2.2.filter (fun x => !q.2.contains x)))
 
 /-- the store happens before the call site (position inside the method) -/
 def storedBefore (cls method target callee : String) (idx : Nat := 0) : Bool :=
